@@ -196,3 +196,9 @@ class HamiltonianCanonical(
                 UserWarning,
                 2,
             )
+
+    def validate_simulation(self) -> None:
+        """This method also ensures that the momenta are saved in the context."""
+        self.context.last_momenta = self.atoms.get_momenta()
+
+        super().validate_simulation()
